@@ -358,6 +358,38 @@ func runC11(p *eng.Prog, r *eng.Report, tier string) {
 		_ = g
 	}
 
+	// ---- C11.9 replacing one part keeps the other two ----------------------------------------------------
+	// WithLocal / WithDomain return the receiver with one part rewritten;
+	// WithResource starts from Bare(). A return that goes through an accessor
+	// which DROPS parts (Domain() in any of them, Bare() outside WithResource)
+	// loses the parts that were to be kept ("removing the localpart" is not
+	// "the domain").
+	nW := 0
+	for _, name := range []string{"JID.WithLocal", "JID.WithDomain", "JID.WithResource"} {
+		wf := c.fn("C11.9", "jid", name)
+		if wf == nil {
+			continue
+		}
+		wg := wf.Graph()
+		for _, rs := range wg.Returns {
+			if len(rs.Results) != 2 {
+				continue
+			}
+			nW++
+			rp, _ := wg.Where(rs)
+			v := wf.Norm(rs.Results[0], &rp)
+			bad := ""
+			if strings.Contains(v, "jid.JID.Domain[") {
+				bad = "returns " + v + ": localpart and resourcepart are dropped"
+			}
+			if name != "JID.WithResource" && strings.Contains(v, "jid.JID.Bare[") {
+				bad = "returns " + v + ": the resourcepart is dropped"
+			}
+			c.r.Check("C11.9", wf, "returned address keeps the other parts", "P: no return of a With* function is built from an accessor that drops parts which are to be kept", rs.Pos(), bad == "", bad)
+		}
+	}
+	c.r.Floor("C11.9", "returns of the With* functions", nW, 8)
+
 	// ---- C11.7 -----------------------------------------------------------------------------------------------
 	pf := c.fn("C11.7", "jid", "Parse")
 	if pf != nil {
